@@ -4,16 +4,19 @@
   (D128/Spec/Elem.lean) against Mathlib's `Real.exp`, `Real.log`.
 
   What is proved here is about the *oracle* (the specification side), not about the Go code: a verdict
-  "this output is more than one ulp from the true value" computed by `Spec.judgeElem` is a theorem about the
-  real number `f(x)`, for every finite operand, and likewise an `.ok` verdict bounds the error.
+  "this output violates C16" computed by `Spec.judgeElem` is a theorem about the real number `f(x)`, for every
+  operand, result and mode flag — with NO side hypotheses about the enclosures: `Encl.expI` refuses (`none`)
+  arguments whose reduction leaves the range on which the series/squaring kernel is proved, the certified
+  logarithm returns a bracket only if both ends pass the (sound) one-sided exp tests, and `withinUlps` uses the
+  end of the enclosure that makes each range test certain.
   Statements only; the proofs assemble the lemmas of `D128/Proofs/Enclosure*.lean`.
 
   notation   `x ∈ᵢ a`  real x in the rational interval a          (`EnclPf.Mem`)
              `T ∈ₛ s`  T = z·10^s.k for some z ∈ᵢ s.m             (`EnclPf.SciMem`)
              `X n c e` the real value (−1)^n·c·10^e of a finite operand / result
              `realFn f` the real function denoted by `f : Spec.Fn`
-             `eT t`    `max (spacingExpS t.m.lo t.k) (spacingExpS t.m.hi t.k)`: exponent of the unit of the verdict,
-                       the format's spacing at the upper end of the enclosure `t` (≥ the spacing at every point of it)
+             `ulpExp T` exponent of the unit in the last place of the format at the positive REAL `T`
+                        (`= Spec.spacingExp` on rationals: `ulp_is_spacing`)
 
   1. rounding and interval arithmetic
        `rdDown_le_rdUp`      rdDown q ≤ q ≤ rdUp q, both within |q|·10^-79                       (all q)
@@ -21,24 +24,27 @@
        `interval_inv`        0 < a.lo, x ∈ᵢ a ⇒ 1/x ∈ᵢ a.invPos
   2. constants
        `ln2_encl`, `ln10_encl`, `atanh_encl`  Real.log 2 ∈ᵢ ln2, Real.log 10 ∈ᵢ ln10, artanh(1/n) ∈ᵢ atanhInv n N
-  3. exponential
+  3. exponential (every answer is an enclosure; and the oracle does answer on sane arguments)
        `expTiny_encl`        |x| ≤ 41/2 ⇒ Real.exp x ∈ᵢ expTiny x
        `expSmall_encl`       |x| ≤ 20992 ⇒ Real.exp x ∈ᵢ expSmall x
-       `expI_encl`           y ∈ᵢ a, width a ≤ 20000, |a.lo|,|a.hi| ≤ 10^60 ⇒ Real.exp y ∈ₛ expI a
-       `exp_encl`            |x| ≤ 10^60 ⇒ Real.exp x ∈ₛ Encl.exp x
-       `expm1_encl`          |x| ≤ 10^60 ⇒ Real.exp x − 1 ∈ᵢ Encl.expm1 x
+       `expI_encl`           expI a = some s → y ∈ᵢ a → Real.exp y ∈ₛ s
+       `exp_encl`            Encl.exp x = some s → Real.exp x ∈ₛ s
+       `expm1_encl`          Encl.expm1 x = some v → Real.exp x − 1 ∈ᵢ v
+       `exp_answers`         |x| ≤ 10^60 → ∃ s, Encl.exp x = some s;  `expI_answers` (width ≤ 4, |a| ≤ 10^60)
   4. certified logarithm
-       `log_encl`            0 < q, Encl.log q k = some l, |l.lo|,|l.hi| ≤ 10^60 ⇒ Real.log (q·10^k) ∈ᵢ l
+       `log_encl`            0 < q → Encl.log q k = some l → Real.log (q·10^k) ∈ᵢ l
+       `log_certificate`     expLe a q k = true → expGe b q k = true → a ≤ Real.log (q·10^k) ≤ b
   5. the true value used by the oracle
        `trueValue_encl`      trueValue f n c e = some (tn, t) ⇒ ∃ T > 0, T ∈ₛ t ∧ realFn f X = (−1)^tn·T
-  6. verdicts of `judgeElem` on the general path (no special operand, no exact case, no huge argument)
-       `bad_finite_sound`    `.bad` on a finite non-zero result ⇒ wrong sign ∨ |r − f(x)| > 10^eT ∨ …
-       `bad_zero_sound`      `.bad` on a zero result ⇒ |f(x)| > 10^Emin
-       `bad_inf_sound`       `.bad` on ±Inf ⇒ wrong sign ∨ lo·10^k < 10^(Emax+31) ∨ |f(x)| + 10^eT < Cmax·10^Emax
-       `ulp_le_unit`         spacingExpS q k ≤ eT t for every rational 0 < q ≤ t.m.hi
-       `ok_finite_sound`     `.ok` on a finite non-zero result ⇒ right sign ∧ |r − f(x)| ≤ 10^eT + width
+       `trueValue_answers`   for Exp, Exp2, Exp10 the oracle answers whenever the argument is not huge
+  6. **verdicts of `judgeElem`**
+       `bad_sound`           judgeElem f x r ne = .bad msg → Violation f x r ne         (every x, r, ne)
+       `ok_sound`            `.ok` on the enclosure path ⇒ right sign ∧ |r − f(x)| ≤ 10^eT + enclosure width
+       `ulp_le_unit`         the unit `10^eT` of the `.ok` bound is the spacing at the upper end of the enclosure
+       `exp_width`, `exp_ok_close`, `log_bracket_width`   proved widths: `.ok` for Exp ⇒ |r − exp x| ≤ 10^eT + 3·10^-39·exp x
 -/
-import D128.Proofs.EnclosureJudge
+import D128.Proofs.EnclosureExact
+import D128.Proofs.EnclosureWidthOk
 set_option autoImplicit false
 
 namespace Props.C16
@@ -73,140 +79,154 @@ theorem expTiny_encl (x : ℚ) (hx : |x| ≤ 41 / 2) : Real.exp (x : ℝ) ∈ᵢ
 
 theorem expSmall_encl (x : ℚ) (hx : |x| ≤ 20992) : Real.exp (x : ℝ) ∈ᵢ expSmall x := expSmall_sound x hx
 
-theorem expI_encl (a : I) (y : ℝ) (hy : y ∈ᵢ a) (hw : a.hi - a.lo ≤ 20000)
-    (hlo : |a.lo| ≤ 10 ^ 60) (hhi : |a.hi| ≤ 10 ^ 60) : Real.exp y ∈ₛ expI a :=
-  expI_sound' a y hy hw hlo hhi
+theorem expI_encl {a : I} {s : Sci} {y : ℝ} (h : expI a = some s) (hy : y ∈ᵢ a) : Real.exp y ∈ₛ s :=
+  expI_sound h hy
 
-theorem exp_encl (x : ℚ) (hx : |x| ≤ 10 ^ 60) : Real.exp (x : ℝ) ∈ₛ Encl.exp x := exp_sound' x hx
+theorem exp_encl {x : ℚ} {s : Sci} (h : Encl.exp x = some s) : Real.exp (x : ℝ) ∈ₛ s := exp_sound h
 
-theorem expm1_encl (x : ℚ) (hx : |x| ≤ 10 ^ 60) : (Real.exp (x : ℝ) - 1) ∈ᵢ Encl.expm1 x := expm1_sound' x hx
+theorem expm1_encl {x : ℚ} {v : I} (h : Encl.expm1 x = some v) : (Real.exp (x : ℝ) - 1) ∈ᵢ v := expm1_sound h
 
-example : Real.exp ((14000 : ℚ) : ℝ) ∈ₛ Encl.exp 14000 :=
-  exp_encl _ (by rw [abs_le]; constructor <;> norm_num)
+theorem exp_answers (x : ℚ) (hx : |x| ≤ 10 ^ 60) : ∃ s, Encl.exp x = some s := exp_isSome x hx
+
+theorem expI_answers (a : I) (hle : a.lo ≤ a.hi) (hw : a.hi - a.lo ≤ 4)
+    (hlo : |a.lo| ≤ 10 ^ 60) (hhi : |a.hi| ≤ 10 ^ 60) : ∃ s, expI a = some s :=
+  expI_isSome a hle hw hlo hhi
+
+example : ∃ s, Encl.exp 14000 = some s ∧ Real.exp ((14000 : ℚ) : ℝ) ∈ₛ s := by
+  obtain ⟨s, hs⟩ := exp_answers 14000 (by rw [abs_le]; constructor <;> norm_num)
+  exact ⟨s, hs, exp_encl hs⟩
 
 /-! ## 4. certified logarithm -/
 
-theorem log_encl {q : ℚ} {k : Int} {l : I} (hq : 0 < q) (h : Encl.log q k = some l)
-    (hlo : |l.lo| ≤ 10 ^ 60) (hhi : |l.hi| ≤ 10 ^ 60) : Real.log ((q : ℝ) * (10 : ℝ) ^ k) ∈ᵢ l :=
-  log_sound' hq h hlo hhi
+theorem log_encl {q : ℚ} {k : Int} {l : I} (hq : 0 < q) (h : Encl.log q k = some l) :
+    Real.log ((q : ℝ) * (10 : ℝ) ^ k) ∈ᵢ l :=
+  log_sound hq h
 
 /-- the certificate alone: whatever the `Float`-seeded search proposes, a bracket `[a, b]` accepted by the
     two one-sided exp tests contains the logarithm -/
-theorem log_certificate {a b q : ℚ} {k : Int} (hq : 0 < q) (ha : |a| ≤ 10 ^ 60) (hb : |b| ≤ 10 ^ 60)
+theorem log_certificate {a b q : ℚ} {k : Int} (hq : 0 < q)
     (h1 : expLe a q k = true) (h2 : expGe b q k = true) :
     (a : ℝ) ≤ Real.log ((q : ℝ) * (10 : ℝ) ^ k) ∧ Real.log ((q : ℝ) * (10 : ℝ) ^ k) ≤ (b : ℝ) := by
   have hpos : (0 : ℝ) < (q : ℝ) * (10 : ℝ) ^ k :=
     mul_pos (by exact_mod_cast hq) (zpow_pos (by norm_num) k)
-  exact ⟨(Real.le_log_iff_exp_le hpos).2 (expLe_sound h1 (inRange_pt a ha)),
-         (Real.log_le_iff_le_exp hpos).2 (expGe_sound h2 (inRange_pt b hb))⟩
+  exact ⟨(Real.le_log_iff_exp_le hpos).2 (expLe_sound h1), (Real.log_le_iff_le_exp hpos).2 (expGe_sound h2)⟩
 
 /-- a concrete certificate (kernel-evaluated): 0.69 ≤ ln 2 ≤ 0.7 -/
 example : ((69 / 100 : ℚ) : ℝ) ≤ Real.log (((2 : ℚ) : ℝ) * (10 : ℝ) ^ (0 : Int)) ∧
     Real.log (((2 : ℚ) : ℝ) * (10 : ℝ) ^ (0 : Int)) ≤ ((7 / 10 : ℚ) : ℝ) :=
-  log_certificate (by norm_num) (by rw [abs_le]; constructor <;> norm_num)
-    (by rw [abs_le]; constructor <;> norm_num)
+  log_certificate (by norm_num)
     (by decide +kernel : expLe (69 / 100) 2 0 = true) (by decide +kernel : expGe (7 / 10) 2 0 = true)
 
 /-! ## 5. the true value used by the oracle -/
 
 theorem trueValue_encl (f : Fn) (n : Bool) (c : Nat) (e : Int) (tn : Bool) (t : Sci)
-    (hc0 : c ≠ 0) (hc : c < 10 ^ 35) (hcert : CertOk f n c e)
+    (hspec : specialCase f (.fin n c e) = none) (hc : c < 10 ^ 35)
     (h : trueValue f n c e = some (tn, t)) :
     ∃ T : ℝ, 0 < T ∧ T ∈ₛ t ∧ realFn f (X n c e) = if tn then -T else T :=
-  trueValue_sound f n c e tn t hc0 hc hcert h
+  trueValue_sound f n c e tn t hspec hc h
+
+theorem trueValue_answers (n : Bool) (c : Nat) (e : Int) (hc0 : c ≠ 0) (hc : c < 10 ^ 35)
+    (h7 : e + (ndigits c : Int) ≤ 7) :
+    (∃ t, trueValue .exp n c e = some (false, t)) ∧ (∃ t, trueValue .exp2 n c e = some (false, t)) ∧
+      (∃ t, trueValue .exp10 n c e = some (false, t)) :=
+  ⟨trueValue_exp_isSome n c e hc0 hc h7, trueValue_exp2_isSome n c e hc0 hc h7,
+   trueValue_exp10_isSome n c e hc0 hc h7⟩
 
 /-- the hypotheses are satisfiable: Exp(−123.45) -/
-example : ∃ T : ℝ, 0 < T ∧ T ∈ₛ Encl.exp (-(12345 / 100)) ∧ Real.exp (X true 12345 (-2)) = T := by
-  have h : trueValue .exp true 12345 (-2) = some (false, Encl.exp (-(12345 / 100))) := by
-    rw [trueValue_exp_eq]
-    have : ndigits 12345 = 5 := SpecRound.ndigits_eq_of (by norm_num) (by norm_num) (by norm_num)
-    rw [this]
-    norm_num [mag, SpecRound.pow10_eq_zpow]
-  obtain ⟨T, h1, h2, h3⟩ := trueValue_encl .exp true 12345 (-2) false _ (by norm_num) (by norm_num) trivial h
-  exact ⟨T, h1, h2, by simpa [realFn] using h3⟩
+example : ∃ t T : _, trueValue .exp true 12345 (-2) = some (false, t) ∧ 0 < T ∧ T ∈ₛ t ∧
+    Real.exp (X true 12345 (-2)) = T := by
+  have hnd : ndigits 12345 = 5 := SpecRound.ndigits_eq_of (by norm_num) (by norm_num) (by norm_num)
+  obtain ⟨t, ht⟩ := (trueValue_answers true 12345 (-2) (by norm_num) (by norm_num) (by rw [hnd]; norm_num)).1
+  obtain ⟨T, h1, h2, h3⟩ := trueValue_encl .exp true 12345 (-2) false t rfl (by norm_num) ht
+  exact ⟨t, T, ht, h1, h2, by simpa [realFn] using h3⟩
 
-/-! ## 6. verdicts of `judgeElem` on the general path -/
+/-! ## 6. verdicts of `judgeElem` -/
 
-section
-variable (f : Fn) (n : Bool) (c : Nat) (e : Int) (ne : Bool) (tn : Bool) (t : Sci)
+/-- `ulpExp` is the specification's spacing exponent on rationals -/
+theorem ulp_is_spacing (q : ℚ) (hq : 0 < q) : ulpExp (q : ℝ) = spacingExp q := ulpExp_rat q hq
 
-/-- **A reported violation is a true violation.**  If the oracle judges a finite non-zero result
-    `(−1)^rn·rc·10^re` of `f` at the finite operand `(−1)^n·c·10^e` as `.bad` on the general path, then, over
-    the reals: the result has the sign opposite to `f(x)`, or it is more than `10^eT` (one unit in the last
-    place of the format at the upper end of the certified enclosure of `|f(x)|`, hence at least the unit at
-    `|f(x)|` itself: `ulp_le_unit`) away from `f(x)`, or
-    `|f(x)| ≥ 10^(Emax+41)` (a finite result is impossible), or the enclosure's lower end is below
-    `10^(Emin−40)`, or the decimal exponent of the result is more than 120 away from the enclosure's scale. -/
-theorem bad_finite_sound (rn : Bool) (rc : Nat) (re : Int) (msg : String)
-    (hspec : specialCase f (.fin n c e) = none)
-    (hexact : (if ne then exactCase f n c e else none) = none)
-    (hhuge : hugeArg f c e = false)
-    (htv : trueValue f n c e = some (tn, t))
-    (hc0 : c ≠ 0) (hc : c < 10 ^ 35) (hcert : CertOk f n c e) (hrc : rc ≠ 0)
-    (h : judgeElem f (.fin n c e) (.fin rn rc re) ne = .bad msg) :
-    X rn rc re * realFn f (X n c e) < 0 ∨
-    (10 : ℝ) ^ (eT t) < |X rn rc re - realFn f (X n c e)| ∨
-    (10 : ℝ) ^ (Emax + 41) ≤ |realFn f (X n c e)| ∨
-    (t.m.lo : ℝ) * (10 : ℝ) ^ t.k < (10 : ℝ) ^ (Emin - 40) ∨ (re - t.k > 120 ∨ re - t.k < -120) :=
-  judge_bad_finite f n c e ne tn t rn rc re msg hspec hexact hhuge htv hc0 hc hcert hrc h
-
-/-- the unit `10^eT` of the verdicts is at least the unit in the last place of the format at every rational
-    point `q·10^k` of the enclosure (and equal to it at the upper end) -/
+/-- the unit of the `.ok` bound is at least the unit in the last place at every rational point of the
+    enclosure (and is the spacing at its upper end) -/
 theorem ulp_le_unit {t : Sci} {q : ℚ} (hq : 0 < q) (h2 : q ≤ t.m.hi) : spacingExpS q t.k ≤ eT t :=
   spacing_le_eT hq h2
 
-/-- an infinite result judged `.bad`: wrong sign, or the enclosure's lower end is below `10^(Emax+31)`, or
-    `|f(x)|` plus one ulp is still below the largest finite Decimal `Cmax·10^Emax` -/
-theorem bad_inf_sound (rn : Bool) (msg : String)
+/-- **A reported violation is a true violation.**  For every function, operand `x` (finite coefficients below
+    10^35, as every bit pattern denotes), result `r` and mode flag: if the oracle answers `.bad`, then `Violation`
+    holds, i.e. (see `EnclPf.Violation`, `EnclPf.GeneralViolation`)
+    * special operand: `r` is not the value the table `specialCase` prescribes (C15);
+    * default mode, `f(x)` exactly representable (`ExactSpec`): `r` is not that value;
+    * huge argument of the exp family: `f(x) > 10^17000` resp. `0 < f(x) < 10^-17000` resp.
+      `−1 < Expm1 x < −1 + 10^-17000`, and `r` is not +Inf resp. +0 resp. −1;
+    * otherwise, with `F = f(x) ≠ 0` the real value: `r` is NaN; or has the sign opposite to `F`; or
+      `|r − F| > 10^(ulpExp |F|)` — more than one unit in the last place of the format at the true result; or is
+      finite although `|F| ≥ 10^(Emax+41)`; or non-zero although `|F| < 10^(Emin−40)`; or zero although
+      `|F| > 10^(ulpExp |F|)`; or infinite although `|F| < 10^(Emax+30)` or `|F|` plus one unit is below the
+      largest finite Decimal. -/
+theorem bad_sound (f : Fn) (x r : Val) (ne : Bool) (msg : String)
+    (hx : ∀ n c e, x = .fin n c e → c < 10 ^ 35)
+    (h : judgeElem f x r ne = .bad msg) : Violation f x r ne :=
+  judgeElem_bad_sound f x r ne msg hx h
+
+/-- the same for a finite non-zero result on the enclosure path, spelled out -/
+theorem bad_finite (f : Fn) (n : Bool) (c : Nat) (e : Int) (ne : Bool) (tn : Bool) (t : Sci)
+    (rn : Bool) (rc : Nat) (re : Int) (msg : String)
     (hspec : specialCase f (.fin n c e) = none)
     (hexact : (if ne then exactCase f n c e else none) = none)
     (hhuge : hugeArg f c e = false)
-    (htv : trueValue f n c e = some (tn, t))
-    (hc0 : c ≠ 0) (hc : c < 10 ^ 35) (hcert : CertOk f n c e)
-    (h : judgeElem f (.fin n c e) (.inf rn) ne = .bad msg) :
-    rn ≠ tn ∨
-    (t.m.lo : ℝ) * (10 : ℝ) ^ t.k < (10 : ℝ) ^ (Emax + 31) ∨
-    |realFn f (X n c e)| + (10 : ℝ) ^ (eT t) < (Cmax : ℝ) * (10 : ℝ) ^ Emax :=
-  judge_bad_inf f n c e ne tn t rn msg hspec hexact hhuge htv hc0 hc hcert h
+    (htv : trueValue f n c e = some (tn, t)) (hc : c < 10 ^ 35)
+    (h : judgeElem f (.fin n c e) (.fin rn (rc + 1) re) ne = .bad msg) :
+    let F := realFn f (X n c e)
+    X rn (rc + 1) re * F < 0 ∨ (10 : ℝ) ^ (ulpExp |F|) < |X rn (rc + 1) re - F| ∨
+      (10 : ℝ) ^ (Emax + 41) ≤ |F| ∨ |F| < (10 : ℝ) ^ (Emin - 40) :=
+  general_bad_sound f n c e ne tn t _ msg hspec hexact hhuge htv hc h
 
-/-- a zero result judged `.bad`: `|f(x)|` exceeds the smallest positive Decimal `10^Emin` -/
-theorem bad_zero_sound (rn : Bool) (re : Int) (msg : String)
+/-- an accepted result (enclosure path) has the right sign and is within one unit `10^eT` plus the width of
+    the enclosure of `f(x)` (for zero / infinite results: `GeneralOk`) -/
+theorem ok_sound (f : Fn) (n : Bool) (c : Nat) (e : Int) (ne : Bool) (tn : Bool) (t : Sci) (r : Val)
     (hspec : specialCase f (.fin n c e) = none)
     (hexact : (if ne then exactCase f n c e else none) = none)
     (hhuge : hugeArg f c e = false)
-    (htv : trueValue f n c e = some (tn, t))
-    (hc0 : c ≠ 0) (hc : c < 10 ^ 35) (hcert : CertOk f n c e)
-    (h : judgeElem f (.fin n c e) (.fin rn 0 re) ne = .bad msg) :
-    (10 : ℝ) ^ Emin < |realFn f (X n c e)| :=
-  judge_bad_zero f n c e ne tn t rn re msg hspec hexact hhuge htv hc0 hc hcert h
+    (htv : trueValue f n c e = some (tn, t)) (hc : c < 10 ^ 35)
+    (h : judgeElem f (.fin n c e) r ne = .ok) :
+    GeneralOk (realFn f (X n c e)) t r :=
+  general_ok_sound f n c e ne tn t r hspec hexact hhuge htv hc h
 
-/-- an accepted finite non-zero result has the right sign and is within one ulp (at the upper end of the
-    enclosure) plus the width of the enclosure of `f(x)` -/
-theorem ok_finite_sound (rn : Bool) (rc : Nat) (re : Int)
-    (hspec : specialCase f (.fin n c e) = none)
-    (hexact : (if ne then exactCase f n c e else none) = none)
-    (hhuge : hugeArg f c e = false)
-    (htv : trueValue f n c e = some (tn, t))
-    (hc0 : c ≠ 0) (hc : c < 10 ^ 35) (hcert : CertOk f n c e) (hrc : rc ≠ 0)
-    (h : judgeElem f (.fin n c e) (.fin rn rc re) ne = .ok) :
-    rn = tn ∧
-    |X rn rc re - realFn f (X n c e)| ≤
-      (10 : ℝ) ^ (eT t) + ((t.m.hi : ℝ) - (t.m.lo : ℝ)) * (10 : ℝ) ^ t.k :=
-  judge_ok_finite f n c e ne tn t rn rc re hspec hexact hhuge htv hc0 hc hcert hrc h
+/-! ### proved widths -/
 
-end
+/-- the enclosure of `exp x` on the arguments the checks use (|x| ≤ 10^7) has relative width ≤ 10^-66 -/
+theorem exp_width {x : ℚ} {s : Sci} (h : Encl.exp x = some s) (hx : |x| ≤ 10 ^ 7) :
+    0 < s.m.lo ∧ s.m.hi ≤ s.m.lo * (1 + 1 / 10 ^ 66) := exp_ratio h hx
 
-/-- the side hypotheses of section 6 are satisfiable: Exp(−123.45), any rounding-mode flag -/
+/-- hence an `.ok` verdict for `Exp` on a finite non-zero result is the one-ulp claim up to 3·10^-39 relative
+    (3·10^-39 is the width of the shortcut enclosure for |x| < 10^-40; `10^eT` is the spacing of the format at
+    the upper end of the enclosure of `exp x`) -/
+theorem exp_ok_close (n : Bool) (c : Nat) (e : Int) (ne : Bool) (tn : Bool) (t : Sci)
+    (rn : Bool) (rc : Nat) (re : Int)
+    (hspec : specialCase .exp (.fin n c e) = none)
+    (hexact : (if ne then exactCase .exp n c e else none) = none)
+    (hhuge : hugeArg .exp c e = false)
+    (htv : trueValue .exp n c e = some (tn, t)) (hc : c < 10 ^ 35)
+    (h : judgeElem .exp (.fin n c e) (.fin rn (rc + 1) re) ne = .ok) :
+    rn = false ∧
+    |X rn (rc + 1) re - Real.exp (X n c e)| ≤ (10 : ℝ) ^ (eT t) + 3 / 10 ^ 39 * Real.exp (X n c e) :=
+  EnclPf.exp_ok_close n c e ne tn t rn rc re hspec hexact hhuge htv hc h
+
+/-- the bracket of the certified logarithm has half-width `max(1, |mid|)·10^-60`: it is narrower than one unit in
+    the last place of the logarithm only for `|ln| ≳ 2·10^-26`; nearer to zero an `.ok` verdict of Log/Log2/Log10
+    is weaker than the one-ulp claim (a `.bad` verdict is a true violation everywhere) -/
+theorem log_bracket_width {q : ℚ} {k : Int} {l : I} (h : Encl.log q k = some l) :
+    l.hi - l.lo =
+      2 * ((if |(l.lo + l.hi) / 2| < 1 then 1 else |(l.lo + l.hi) / 2|) * pow10 (-60)) := log_width h
+
+/-- the side conditions of the enclosure path are satisfiable: Exp(−123.45), any rounding-mode flag -/
 example (ne : Bool) :
     specialCase .exp (.fin true 12345 (-2)) = none ∧
     (if ne then exactCase .exp true 12345 (-2) else none) = none ∧
-    hugeArg .exp 12345 (-2) = false ∧
-    trueValue .exp true 12345 (-2) = some (false, Encl.exp (-(12345 / 100))) ∧ CertOk .exp true 12345 (-2) := by
+    hugeArg .exp 12345 (-2) = false ∧ ∃ t, trueValue .exp true 12345 (-2) = some (false, t) := by
   have hnd : ndigits 12345 = 5 := SpecRound.ndigits_eq_of (by norm_num) (by norm_num) (by norm_num)
-  refine ⟨rfl, ?_, ?_, ?_, trivial⟩
+  refine ⟨rfl, ?_, ?_, ?_⟩
   · cases ne <;> simp [exactCase]
   · simp [hugeArg, hnd]
-  · rw [trueValue_exp_eq, hnd]
-    norm_num [mag, SpecRound.pow10_eq_zpow]
+  · exact (trueValue_answers true 12345 (-2) (by norm_num) (by norm_num) (by rw [hnd]; norm_num)).1
 
 end Props.C16
